@@ -3,10 +3,10 @@ EXTENDS EntryPoints, Json
 CONSTANTS Emit
 VARIABLE in
 Init == \E c \in {"oci", "blob", "both", "both-badBlob", "both-badOCI"} : \E e \in {"vVerify", "vVerifyBlob", "nVerify", "nVerifyBlob"} : \E l \in LevelNames :
-        \E g \in BOOLEAN : \E sg \in {"valid", "invalid", "garbage", "empty"} : \E p \in {"none", "nilManager", "installed"} :
+        \E g \in BOOLEAN : \E sg \in {"valid", "validTS", "invalid", "garbage", "empty"} : \E p \in {"none", "nilManager", "installed"} :
         \E r \in {"validator", "client", "default"} : \E m \in {"none", "match", "missing"} :
            /\ (g => e \in {"vVerifyBlob", "nVerifyBlob"} /\ l # "skip")       \* a global statement exists for blobs only and is never skip
-           /\ (r # "validator" => sg = "valid" /\ p = "none")
+           /\ (r # "validator" => sg \in {"valid", "validTS"} /\ p = "none")
            /\ (c \in {"both-badBlob", "both-badOCI"} => sg = "valid" /\ p = "none" /\ r = "validator" /\ ~g)                  \* the other revocation options: happy path only (no network)
            /\ (m # "none" => sg = "valid" /\ p = "none" /\ r = "validator" /\ c \in {"oci", "blob", "both"})   \* required user metadata: otherwise valid signatures
            /\ in = [construct |-> c, entry |-> e, level |-> l, global |-> g, sig |-> sg, plugin |-> p, revopt |-> r, meta |-> m]
